@@ -962,6 +962,21 @@ class NF:
                 items.append(("item", self.nf(e["args"][0], env2)))
                 accounted += 1
                 continue
+            if e.get("k") == "MethodCall" and e["name"] in ("extend", "extend_from_slice") and len(m) == 1 and len(e["args"]) == 1 and _is_local(e["recv"], lid):
+                # `v.extend(more)`: the elements of `more` in order (an array literal, a constant array, another list, an iterator)
+                more = self.nf(e["args"][0], env2)
+                if more[0] == "const":
+                    more = self._const_array(more[1]) or more
+                if more[0] == "tuple":
+                    items += [("item", x) for x in more[1]]
+                elif more[0] == "list":
+                    items += list(more[1])
+                elif more[0] in ("const", "unknown", "local"):
+                    return ("unknown", f"local {pat['name']} is extended with a value that could not be read")
+                else:
+                    items += _list_items(more)
+                accounted += 1
+                continue
             if e.get("k") == "For":
                 it = self.nf(e["iter"], env2)
                 src, val, conds = iter_view(it)
@@ -979,6 +994,21 @@ class NF:
         if accounted != len(muts):
             return ("unknown", f"local {pat['name']} is mutated outside the enclosing block")
         return ("list", tuple(items))
+
+    def _const_array(self, path):
+        """("tuple", items) for a constant of the crate that is an array literal"""
+        for b in self.F.lib.bodies:
+            if b["path"] == path and str(b.get("kind", "")).startswith(("Const", "Static")) and b.get("hir") is not None:
+                try:
+                    nb = H.norm_body(b)
+                except Unrecognised:
+                    return None
+                v = H.strip(nb["value"])
+                while v.get("k") == "AddrOf":
+                    v = H.strip(v["e"])
+                if v.get("k") == "Array":
+                    return ("tuple", tuple(self.nf(x, Env()) for x in v["es"]))
+        return None
 
     def format_nf(self, fa, env):
         parts = []
@@ -1790,12 +1820,21 @@ class EnvWalker:
         elif k == "Match":
             self._w(e["scrut"], env, cb, ctx)
             scrut = N.nf(e["scrut"], env)
+            earlier = ()    # what the arms before did not match: an arm runs where they failed
             for a in e["arms"]:
                 env_a = env.child()
                 bind_pattern(a["pat"], scrut, env_a)
+                here = ("islet", pat_label(a["pat"]), scrut)
+                catch_all = H.strip(a["pat"]).get("k") == "Wild" or (H.strip(a["pat"]).get("k") == "Binding" and not H.strip(a["pat"]).get("sub"))
+                arm_ctx = ctx + earlier + (() if catch_all else (("alt", here, True),))
                 if a.get("guard"):
-                    self._w(a["guard"], env_a, cb, ctx)
-                self._w(a["body"], env_a, cb, ctx + (("alt", ("islet", pat_label(a["pat"]), scrut), True),))
+                    self._w(a["guard"], env_a, cb, arm_ctx)
+                    gc = N.nf(a["guard"], env_a)
+                    arm_ctx = arm_ctx + (("alt", gc, True),)
+                    earlier = earlier + (("alt", gc if catch_all else ("binop", "And", here, gc), False),)
+                elif not catch_all:
+                    earlier = earlier + (("alt", here, False),)
+                self._w(a["body"], env_a, cb, arm_ctx)
         elif k == "For":
             self._w(e["iter"], env, cb, ctx)
             it = self._iter_source(N.nf(e["iter"], env))
